@@ -385,3 +385,39 @@ func HexShort(b []byte) string {
 	}
 	return fmt.Sprintf("%s…(%dB)", hex.EncodeToString(b[:8]), len(b))
 }
+
+// Main is the body of a single-property command: <bin> <quick|thorough>.
+func Main(prop, level string, run func(*Run)) {
+	if len(os.Args) > 2 && os.Args[1] == "child" {
+		f, ok := Children[os.Args[2]]
+		if !ok {
+			fmt.Fprintln(os.Stderr, "unknown child", os.Args[2])
+			os.Exit(2)
+		}
+		os.Exit(f(os.Args[3:]))
+	}
+	tier := "quick"
+	if len(os.Args) > 1 {
+		tier = os.Args[len(os.Args)-1]
+	}
+	if tier != "quick" && tier != "thorough" {
+		fmt.Fprintln(os.Stderr, "tier must be quick or thorough")
+		os.Exit(2)
+	}
+	r := NewRun(prop, tier, level)
+	run(r)
+	os.Exit(r.Finish())
+}
+
+// Children maps a child-process name to its entry point (vh child <name> args...). Packages
+// that need crash isolation register here from init().
+var Children = map[string]func(args []string) int{}
+
+// SelfExe returns the path of the running binary (to re-exec as a child).
+func SelfExe() string {
+	p, err := os.Executable()
+	if err != nil {
+		return os.Args[0]
+	}
+	return p
+}
